@@ -168,6 +168,27 @@ int main(int argc, char **argv) {
 		TMCG_CardSecret es; ok = es.import(m);
 		Rec("tsec_imp").b(m).t(ok ? tok_tsecret(es) : "none");
 	}
+	// ---- TMCG_PublicKey text: pub|name|email|type|m|y|nizk|sig (model-compared) ---------------------------------
+	for (unsigned i = 0; i < N / 2; i++) {
+		auto rstr = [&](size_t maxlen, bool bars) { std::string r; size_t l = gen().below(maxlen + 1);
+			static const char A[] = "abcXYZ019 @.^-_~\n"; for (size_t a = 0; a < l; a++) r += A[gen().below(sizeof(A) - 1)];
+			if (bars && l) r[gen().below(l)] = '|'; return r; };
+		bool bars = (gen().below(8) == 0);
+		TMCG_PublicKey pk;
+		pk.name = rstr(12, bars && gen().below(2)); pk.email = rstr(12, false); pk.type = rstr(8, bars && gen().below(2)); pk.nizk = rstr(40, bars && gen().below(2));
+		pk.sig = rstr(30, gen().below(2)); gen_int(pk.m, MAXB); gen_int(pk.y, MAXB);
+		std::string s = exp(pk);
+		{ Rec r("pub_exp"); r.b(pk.name).b(pk.email).b(pk.type).z(pk.m).z(pk.y).b(pk.nizk).b(pk.sig).b(s); }
+		auto tokpk = [](const TMCG_PublicKey &k) { return xb(k.name) + "," + xb(k.email) + "," + xb(k.type) + "," + hx(k.m) + "," + hx(k.y) + "," + xb(k.nizk) + "," + xb(k.sig); };
+		TMCG_PublicKey d; d.name = "used"; d.sig = "old"; mpz_set_ui(d.m, 77);
+		bool ok = d.import(s);
+		bool clean = pk.name.find('|') == pk.name.npos && pk.type.find('|') == pk.type.npos && pk.nizk.find('|') == pk.nizk.npos;
+		if (clean && (!ok || tokpk(d) != tokpk(pk) || exp(d) != s)) propfail("pubkey-roundtrip", "TMCG_PublicKey " + xb(s.substr(0, 200)) + " does not round-trip");
+		Rec("pub_imp").b(s).t(ok ? tokpk(d) : "none");
+		std::string m = mutate(s);
+		TMCG_PublicKey e; ok = e.import(m);
+		Rec("pub_imp").b(m).t(ok ? tokpk(e) : "none");
+	}
 	// ---- stacks and stack secrets ---------------------------------------------------------------------
 	for (unsigned i = 0; i < N / 4; i++) {
 		size_t n;
